@@ -47,6 +47,9 @@ def run(ctx):
         for d in ((0, 1) if ctx.quick else (0, 1, -1)):
             for via in ("fiber", "tensor"):
                 cases.append({"kind": "nest", "nest": n, "depth": depth, "d": d, "via": via, "unc_shape": rng.choice([0, 1, 1])})
+                if d >= 0 and rng.random() < 0.25:
+                    # the same nest over another scalar class (floats with a float zero, integers beyond 2**31, nearly equal floats, negatives)
+                    cases.append({"kind": "nest", "nest": n, "depth": depth, "d": d, "via": via, "unc_shape": 1, "vmap": rng.choice(["floatzero", "big", "nearfloats", "negative"])})
     for _ in range(400 if ctx.quick else 6000):
         depth = rng.choice([1, 2, 3])
         t = rand_tree(rng, 4, depth)
@@ -61,6 +64,9 @@ def run(ctx):
         cases.append({"kind": "roundtrip", "obj": "fiber", "via": rng.choice(["dict", "yaml"]), "tree": tn, "depth": depth, "d": d})
         if depth >= 2 and rng.random() < 0.5:
             cases.append({"kind": "roundtrip", "obj": rng.choice(["tensor", "fiber"]), "via": "yaml", "tree": t, "depth": depth, "flatten": depth - 1})
+        if depth >= 2:
+            # tuple coordinates (flat and nested pair style) through the dictionary form
+            cases.append({"kind": "roundtrip", "obj": "fiber", "via": "dict", "tree": t, "depth": depth, "flatten": depth - 1, "fstyle": rng.choice(["tuple", "pair"])})
     for v in (0, 1, 7, -3):
         cases.append({"kind": "roundtrip", "obj": "rank0", "via": "yaml", "val": v, "depth": 0})
     for _ in range(150 if ctx.quick else 3000):
